@@ -12,9 +12,9 @@
                  a match under the larger window that ends inside the smaller one IS the match under the
                  smaller window
 
-  See the end of the file for what is proved (every alternative of `HTML_TAG_RE` except the open tag, and
-  the whole matcher on windows that do not start an open tag) and what is open (the open tag: attribute
-  backtracking; no counterexample in an exhaustive search).
+  See the end of the file for what is proved: both facts for every alternative but the open tag; for the open
+  tag `Shr` and the weak form of `Ext` (the larger window matches too), which give the `FlatL2` fact for the whole
+  `HTML_TAG_RE` (`extent_flatL2`, `tagRest_shr`, `tagRest_ext_weak`); open: same-extent `Ext` for the open tag.
 -/
 import MdIt.Props.Html
 
@@ -780,6 +780,468 @@ theorem tagRest_shr_nonopen {w x r0 : List Char} (hopen : openTagK always (w ++ 
       closeTagK_second (by rcases hct with rfl | rfl <;> decide)
     exact ⟨r, hr, by unfold tagRest; rw [ho, hcl, hw], ho⟩
 
+/-! ## the open tag: candidate lists of the attribute backtracking under a larger window -/
+
+theorem findSome_attach {α β : Type} (l : List α) (f : α → Option β) :
+    l.attach.findSome? (fun ⟨r, _⟩ => f r) = l.findSome? f := by
+  conv => rhs; rw [← List.attach_map_subtype_val l]
+  rw [List.findSome?_map]
+  rfl
+
+/-- `attrsK` without the termination plumbing -/
+theorem attrsK_eq (k : List Char → Bool) (s : List Char) :
+    attrsK k s =
+      match attrHead s with
+      | none => closeK k s
+      | some s2 =>
+        match (valueEnds s2).findSome? (attrsK k) with
+        | some r => some r
+        | none =>
+          match attrsK k s2 with
+          | some r => some r
+          | none => closeK k s := by
+  rw [attrsK]
+  simp only [findSome_attach]
+  split <;> rename_i hh <;> split at hh
+  · simp_all
+  · rename_i s2 hs2
+    rw [hs2]; dsimp only
+    cases h1 : List.findSome? (attrsK k) (valueEnds s2) with
+    | some r => rw [h1] at hh; dsimp only at hh ⊢; first | exact hh.symm | cases hh
+    | none => rw [h1] at hh; dsimp only at hh ⊢; rw [hh]
+  · simp_all
+  · rename_i s2 hs2
+    rw [hs2]; dsimp only
+    cases h1 : List.findSome? (attrsK k) (valueEnds s2) with
+    | some r => rw [h1] at hh; dsimp only at hh ⊢; first | exact hh.symm | cases hh
+    | none => rw [h1] at hh; dsimp only at hh ⊢; rw [hh]
+
+/-- `L'` is `L` with `x` appended to every member, plus inserted members no longer than `x`, order kept -/
+inductive Emb (x : List Char) : List (List Char) → List (List Char) → Prop
+  | nil : Emb x [] []
+  | keep {a : List Char} {L L' : List (List Char)} : Emb x L L' → Emb x (a :: L) ((a ++ x) :: L')
+  | extra {e : List Char} {L L' : List (List Char)} : e.length ≤ x.length → Emb x L L' → Emb x L (e :: L')
+
+theorem Emb.append {x : List Char} {A A' B B' : List (List Char)} (h1 : Emb x A A') (h2 : Emb x B B') :
+    Emb x (A ++ B) (A' ++ B') := by
+  induction h1 with
+  | nil => exact h2
+  | keep _ ih => exact .keep ih
+  | extra he _ ih => exact .extra he ih
+
+theorem Emb.extras {x : List Char} : ∀ (E : List (List Char)), (∀ e ∈ E, e.length ≤ x.length) → Emb x [] E
+  | [], _ => .nil
+  | e :: E, h => .extra (h e List.mem_cons_self) (Emb.extras E (fun e' he' => h e' (List.mem_cons_of_mem _ he')))
+
+theorem Emb.mem {x : List Char} {L L' : List (List Char)} (h : Emb x L L') {v : List Char} (hv : v ∈ L) :
+    v ++ x ∈ L' := by
+  induction h with
+  | nil => cases hv
+  | keep _ ih =>
+    rcases List.mem_cons.mp hv with rfl | hv
+    · exact List.mem_cons_self
+    · exact List.mem_cons_of_mem _ (ih hv)
+  | extra _ _ ih => exact List.mem_cons_of_mem _ (ih hv)
+
+theorem Emb.flatMap {x : List Char} {g : List Char → List (List Char)}
+    (hg : ∀ m, Emb x (g m) (g (m ++ x))) (hs : ∀ e : List Char, e.length ≤ x.length → Emb x [] (g e))
+    {M M' : List (List Char)} (h : Emb x M M') : Emb x (M.flatMap g) (M'.flatMap g) := by
+  induction h with
+  | nil => exact .nil
+  | keep _ ih => simp only [List.flatMap_cons]; exact (hg _).append ih
+  | extra he _ ih =>
+    simp only [List.flatMap_cons]
+    have := (hs _ he).append ih
+    simpa using this
+
+theorem splits_last (p : Char → Bool) (x : List Char) :
+    ∃ E, splits p x = E ++ [x] ∧ ∀ e ∈ E, e.length ≤ x.length := by
+  cases x with
+  | nil => exact ⟨[], rfl, by simp⟩
+  | cons c r =>
+    simp only [splits]
+    split
+    · exact ⟨splits p r, rfl, fun e he => by have := mem_splits_le he; simp; omega⟩
+    · exact ⟨[], rfl, by simp⟩
+
+theorem splits_emb (p : Char → Bool) (x : List Char) : ∀ t, Emb x (splits p t) (splits p (t ++ x))
+  | [] => by
+    obtain ⟨E, hE, hs⟩ := splits_last p x
+    simp only [List.nil_append, splits, hE]
+    have := (Emb.extras E hs).append (Emb.keep (a := []) Emb.nil)
+    simpa using this
+  | c :: r => by
+    simp only [List.cons_append, splits]
+    split
+    · exact (splits_emb p x r).append (Emb.keep (a := c :: r) Emb.nil)
+    · exact Emb.keep (a := c :: r) Emb.nil
+
+theorem mem_quotedEnd_lt {q : Char} {x v : List Char} (hv : v ∈ quotedEnd q x) : v.length < x.length := by
+  unfold quotedEnd at hv
+  split at hv
+  · next y r'' hd =>
+    simp only [List.mem_singleton] at hv; subst hv
+    have := length_dropWhile_le (· != q) x
+    rw [hd] at this; simp at this; omega
+  · cases hv
+
+theorem quotedEnd_emb (q : Char) (r x : List Char) : Emb x (quotedEnd q r) (quotedEnd q (r ++ x)) := by
+  rcases dropWhile_append_cases (· != q) r x with ⟨c, r', e1, e2⟩ | ⟨e1, e2⟩
+  · unfold quotedEnd
+    rw [e1, e2]; exact Emb.keep Emb.nil
+  · have h1 : quotedEnd q r = [] := by unfold quotedEnd; rw [e1]
+    have h2 : quotedEnd q (r ++ x) = quotedEnd q x := by unfold quotedEnd; rw [e2]
+    rw [h1, h2]
+    exact Emb.extras _ (fun v hv => by have := mem_quotedEnd_lt hv; omega)
+
+theorem valueAt_short {x e : List Char} (he : e.length ≤ x.length) : Emb x [] (valueAt e) :=
+  Emb.extras _ (fun v hv => by have := mem_valueAt_lt hv; omega)
+
+theorem valueAt_emb (x : List Char) : ∀ m, Emb x (valueAt m) (valueAt (m ++ x))
+  | [] => by
+    simp only [List.nil_append]
+    exact Emb.extras _ (fun v hv => by have := mem_valueAt_lt hv; omega)
+  | c :: r => by
+    simp only [List.cons_append, valueAt]
+    split
+    · exact splits_emb _ x r
+    · split
+      · exact quotedEnd_emb _ r x
+      · split
+        · exact quotedEnd_emb _ r x
+        · exact Emb.nil
+
+theorem valueEnds_emb (s x : List Char) : Emb x (valueEnds s) (valueEnds (s ++ x)) := by
+  rcases dropWhile_append_cases isWs s x with ⟨c, r, e1, e2⟩ | ⟨e1, e2⟩
+  · unfold valueEnds
+    rw [e1, e2]
+    simp only
+    split
+    · exact Emb.flatMap (valueAt_emb x) (fun e he => valueAt_short he) (splits_emb isWs x r)
+    · exact Emb.nil
+  · have h1 : valueEnds s = [] := by unfold valueEnds; rw [e1]
+    have h2 : valueEnds (s ++ x) = valueEnds x := by unfold valueEnds; rw [e2]
+    rw [h1, h2]
+    exact Emb.extras _ (fun v hv => by have := mem_valueEnds_lt hv; omega)
+
+/-! ## the open tag: `closeK`, and the induction over `attrsK` -/
+
+theorem closeK_ext : Ext (closeK always) := by
+  intro w x r h
+  unfold closeK at h ⊢
+  split at h
+  · next r' hd =>
+    simp only [always, if_true, Option.some.injEq] at h; subst h
+    rw [dropWhile_append_cons hd]; simp [always]
+  · next r' hd =>
+    simp only [always, if_true, Option.some.injEq] at h; subst h
+    rw [dropWhile_append_cons hd]; simp [always]
+  · cases h
+
+theorem closeK_lt {s r : List Char} (h : closeK always s = some r) : r.length < s.length :=
+  (closeK_spec h).2.1
+
+theorem closeK_shr : Shr (closeK always) := by
+  intro w x r0 h hx
+  rcases dropWhile_append_cases isWs w x with ⟨c, u, e1, e2⟩ | ⟨e1, e2⟩
+  · unfold closeK at h ⊢
+    rw [e2] at h
+    rw [e1]
+    split at h
+    · next r' heq =>
+      simp only [List.cons.injEq] at heq
+      obtain ⟨rfl, rfl⟩ := heq
+      simp only [always, if_true, Option.some.injEq] at h
+      exact ⟨u, h.symm, by simp [always]⟩
+    · next r' heq =>
+      simp only [List.cons.injEq] at heq
+      obtain ⟨rfl, heq⟩ := heq
+      simp only [always, if_true, Option.some.injEq] at h; subst h
+      cases u with
+      | nil => simp only [List.nil_append] at heq; subst heq; simp at hx; omega
+      | cons d u' =>
+        simp only [List.cons_append, List.cons.injEq] at heq
+        obtain ⟨rfl, rfl⟩ := heq
+        exact ⟨u', rfl, by simp [always]⟩
+    · cases h
+  · exfalso
+    have hh : closeK always (w ++ x) = closeK always x := by unfold closeK; rw [e2]
+    rw [hh] at h
+    have := closeK_lt h; omega
+
+abbrev A := attrsK always
+
+theorem A_lt {s r : List Char} (h : A s = some r) : r.length < s.length :=
+  (attrsK_spec always _ _ _ (Nat.le_refl _) h).2.1
+
+/-- every way `A y` can succeed gives a result shorter than `B` -/
+theorem A_bound {y r0 : List Char} {B : Nat} (h : A y = some r0)
+    (h1 : ∀ s2, attrHead y = some s2 → s2.length ≤ B)
+    (h2 : ∀ r, closeK always y = some r → r.length < B) : r0.length < B := by
+  unfold A at h
+  rw [attrsK_eq] at h
+  cases ha : attrHead y with
+  | none => rw [ha] at h; exact h2 _ h
+  | some s2 =>
+    rw [ha] at h
+    dsimp only at h
+    have hb := h1 s2 ha
+    cases hf : List.findSome? (attrsK always) (valueEnds s2) with
+    | some r =>
+      rw [hf] at h; dsimp only at h
+      simp only [Option.some.injEq] at h; subst h
+      obtain ⟨v, hv, hav⟩ := List.exists_of_findSome?_eq_some hf
+      have := A_lt hav; have := mem_valueEnds_lt hv; omega
+    | none =>
+      rw [hf] at h; dsimp only at h
+      cases hs : attrsK always s2 with
+      | some r =>
+        rw [hs] at h; simp only [Option.some.injEq] at h; subst h
+        have := A_lt hs; omega
+      | none => rw [hs] at h; exact h2 _ h
+
+theorem emb_findSome_some {x : List Char} {L L' : List (List Char)} (h : Emb x L L')
+    (hE : ∀ v ∈ L, (A v).isSome = true → (A (v ++ x)).isSome = true)
+    (hs : (L.findSome? A).isSome = true) : (L'.findSome? A).isSome = true := by
+  rw [List.findSome?_isSome_iff] at hs ⊢
+  obtain ⟨v, hv, hav⟩ := hs
+  exact ⟨v ++ x, h.mem hv, hE v hv hav⟩
+
+theorem emb_findSome_shr {x : List Char} {L L' : List (List Char)} (h : Emb x L L') :
+    (∀ v ∈ L, (A v).isSome = true → (A (v ++ x)).isSome = true) →
+    (∀ v ∈ L, ∀ r0, A (v ++ x) = some r0 → x.length ≤ r0.length → ∃ r, r0 = r ++ x ∧ A v = some r) →
+    ∀ r0, L'.findSome? A = some r0 → x.length ≤ r0.length →
+      ∃ r, r0 = r ++ x ∧ L.findSome? A = some r := by
+  induction h with
+  | nil => intro _ _ r0 h; simp at h
+  | @keep a L L' _ ih =>
+    intro hE hS r0 hf hx
+    simp only [List.findSome?_cons] at hf ⊢
+    cases hax : A (a ++ x) with
+    | some r1 =>
+      rw [hax] at hf; simp only [Option.some.injEq] at hf; subst hf
+      obtain ⟨r, hr, har⟩ := hS a List.mem_cons_self _ hax hx
+      exact ⟨r, hr, by rw [har]⟩
+    | none =>
+      rw [hax] at hf; dsimp only at hf
+      have ha : A a = none := by
+        cases haa : A a with
+        | none => rfl
+        | some r =>
+          have := hE a List.mem_cons_self (by rw [haa]; rfl)
+          rw [hax] at this; cases this
+      rw [ha]
+      exact ih (fun v hv => hE v (List.mem_cons_of_mem _ hv)) (fun v hv => hS v (List.mem_cons_of_mem _ hv))
+        r0 hf hx
+  | @extra e L L' he _ ih =>
+    intro hE hS r0 hf hx
+    simp only [List.findSome?_cons] at hf
+    cases hae : A e with
+    | some r1 =>
+      rw [hae] at hf; simp only [Option.some.injEq] at hf; subst hf
+      have := A_lt hae; omega
+    | none =>
+      rw [hae] at hf; dsimp only at hf
+      exact ih hE hS r0 hf hx
+
+/-- the two facts, for all windows of length `≤ n` -/
+def PA (n : Nat) : Prop :=
+  ∀ w x : List Char, w.length ≤ n →
+    ((A w).isSome = true → (A (w ++ x)).isSome = true) ∧
+    (∀ r0, A (w ++ x) = some r0 → x.length ≤ r0.length → ∃ r, r0 = r ++ x ∧ A w = some r)
+
+/-- when both windows have no attribute head, `A` is `closeK` -/
+theorem PA_close {w x : List Char} (h1 : attrHead w = none) (h2 : attrHead (w ++ x) = none) :
+    ((A w).isSome = true → (A (w ++ x)).isSome = true) ∧
+    (∀ r0, A (w ++ x) = some r0 → x.length ≤ r0.length → ∃ r, r0 = r ++ x ∧ A w = some r) := by
+  have e1 : A w = closeK always w := by unfold A; rw [attrsK_eq, h1]
+  have e2 : A (w ++ x) = closeK always (w ++ x) := by unfold A; rw [attrsK_eq, h2]
+  rw [e1, e2]
+  refine ⟨fun h => ?_, fun r0 h hx => closeK_shr w x r0 h hx⟩
+  cases hc : closeK always w with
+  | none => rw [hc] at h; cases h
+  | some r => rw [closeK_ext w x r hc]; rfl
+
+/-- when the smaller window cannot match and every match of the larger one is short -/
+theorem PA_vacuous {w x : List Char} (h1 : A w = none) (h2 : ∀ r0, A (w ++ x) = some r0 → r0.length < x.length) :
+    ((A w).isSome = true → (A (w ++ x)).isSome = true) ∧
+    (∀ r0, A (w ++ x) = some r0 → x.length ≤ r0.length → ∃ r, r0 = r ++ x ∧ A w = some r) := by
+  refine ⟨fun h => (by rw [h1] at h; cases h), fun r0 h hx => ?_⟩
+  have := h2 r0 h; omega
+
+theorem PA_all : ∀ n, PA n := by
+  intro n
+  induction n with
+  | zero =>
+    intro w x hw
+    have : w = [] := List.eq_nil_of_length_eq_zero (by omega)
+    subst this
+    apply PA_vacuous
+    · unfold A; rw [attrsK_eq]; simp [attrHead, closeK]
+    · intro r0 h; simp only [List.nil_append] at h; exact A_lt h
+  | succ n ih =>
+    intro w x hw
+    cases w with
+    | nil =>
+      apply PA_vacuous
+      · unfold A; rw [attrsK_eq]; simp [attrHead, closeK]
+      · intro r0 h; simp only [List.nil_append] at h; exact A_lt h
+    | cons c t =>
+      by_cases hc : isWs c = true
+      rotate_left
+      · exact PA_close (by simp [attrHead, hc]) (by simp [attrHead, hc])
+      rcases dropWhile_append_cases isWs t x with ⟨c1, t1, e1, e1'⟩ | ⟨e1, e1'⟩
+      · by_cases hc1 : isAttrStart c1 = true
+        rotate_left
+        · exact PA_close (by simp [attrHead, hc, e1, hc1]) (by simp [attrHead, hc, e1', hc1])
+        rcases dropWhile_append_cases isAttrChar t1 x with ⟨c2, t2, e2, e2'⟩ | ⟨e2, e2'⟩
+        · -- the main case: an attribute head that ends inside the smaller window
+          have hh1 : attrHead (c :: t) = some (c2 :: t2) := by simp [attrHead, hc, e1, hc1, e2]
+          have hh2 : attrHead ((c :: t) ++ x) = some ((c2 :: t2) ++ x) := by
+            simp [attrHead, hc, e1', hc1, e2']
+          have hlen : (c2 :: t2).length ≤ n := by
+            have h1 := length_dropWhile_le isWs t
+            have h2 := length_dropWhile_le isAttrChar t1
+            rw [e1] at h1; rw [e2] at h2; simp at h1 h2 hw ⊢; omega
+          have hemb := valueEnds_emb (c2 :: t2) x
+          have hmem : ∀ v ∈ valueEnds (c2 :: t2), v.length ≤ n := fun v hv => by
+            have := mem_valueEnds_lt hv; omega
+          have hE : ∀ v ∈ valueEnds (c2 :: t2), (A v).isSome = true → (A (v ++ x)).isSome = true :=
+            fun v hv => (ih v x (hmem v hv)).1
+          have hS : ∀ v ∈ valueEnds (c2 :: t2), ∀ r0, A (v ++ x) = some r0 → x.length ≤ r0.length →
+              ∃ r, r0 = r ++ x ∧ A v = some r := fun v hv => (ih v x (hmem v hv)).2
+          have ihs := ih (c2 :: t2) x hlen
+          have ew : A (c :: t) = (match (valueEnds (c2 :: t2)).findSome? A with
+              | some r => some r
+              | none => match A (c2 :: t2) with
+                | some r => some r
+                | none => closeK always (c :: t)) := by
+            unfold A; rw [attrsK_eq, hh1]
+          have ex : A ((c :: t) ++ x) = (match (valueEnds ((c2 :: t2) ++ x)).findSome? A with
+              | some r => some r
+              | none => match A ((c2 :: t2) ++ x) with
+                | some r => some r
+                | none => closeK always ((c :: t) ++ x)) := by
+            unfold A; rw [attrsK_eq, hh2]
+          rw [ew, ex]
+          constructor
+          · intro h
+            cases hf : (valueEnds (c2 :: t2)).findSome? A with
+            | some r =>
+              have := emb_findSome_some hemb hE (by rw [hf]; rfl)
+              cases hf' : (valueEnds ((c2 :: t2) ++ x)).findSome? A with
+              | none => rw [hf'] at this; cases this
+              | some r' => rfl
+            | none =>
+              rw [hf] at h; dsimp only at h
+              cases hf' : (valueEnds ((c2 :: t2) ++ x)).findSome? A with
+              | some r' => rfl
+              | none =>
+                dsimp only
+                cases hs2 : A (c2 :: t2) with
+                | some r =>
+                  have := ihs.1 (by rw [hs2]; rfl)
+                  cases hs2' : A ((c2 :: t2) ++ x) with
+                  | none => rw [hs2'] at this; cases this
+                  | some r' => rfl
+                | none =>
+                  rw [hs2] at h; dsimp only at h
+                  cases hs2' : A ((c2 :: t2) ++ x) with
+                  | some r' => rfl
+                  | none =>
+                    dsimp only
+                    cases hcl : closeK always (c :: t) with
+                    | none => rw [hcl] at h; cases h
+                    | some r => rw [closeK_ext _ x r hcl]; rfl
+          · intro r0 h hx
+            cases hf' : (valueEnds ((c2 :: t2) ++ x)).findSome? A with
+            | some r' =>
+              rw [hf'] at h; simp only [Option.some.injEq] at h; subst h
+              obtain ⟨r, hr, hfr⟩ := emb_findSome_shr hemb hE hS _ hf' hx
+              exact ⟨r, hr, by rw [hfr]⟩
+            | none =>
+              rw [hf'] at h; dsimp only at h
+              have hf : (valueEnds (c2 :: t2)).findSome? A = none := by
+                cases hf : (valueEnds (c2 :: t2)).findSome? A with
+                | none => rfl
+                | some r =>
+                  have := emb_findSome_some hemb hE (by rw [hf]; rfl)
+                  rw [hf'] at this; cases this
+              rw [hf]; dsimp only
+              cases hs2' : A ((c2 :: t2) ++ x) with
+              | some r' =>
+                rw [hs2'] at h; simp only [Option.some.injEq] at h; subst h
+                obtain ⟨r, hr, har⟩ := ihs.2 _ hs2' hx
+                exact ⟨r, hr, by rw [har]⟩
+              | none =>
+                rw [hs2'] at h; dsimp only at h
+                have hs2 : A (c2 :: t2) = none := by
+                  cases hs2 : A (c2 :: t2) with
+                  | none => rfl
+                  | some r =>
+                    have := ihs.1 (by rw [hs2]; rfl)
+                    rw [hs2'] at this; cases this
+                rw [hs2]; dsimp only
+                exact closeK_shr _ x r0 h hx
+        · -- the attribute name runs to the end of the smaller window
+          apply PA_vacuous
+          · have hh1 : attrHead (c :: t) = some [] := by simp [attrHead, hc, e1, hc1, e2]
+            have hcl : closeK always (c :: t) = none := by
+              unfold closeK
+              have : (c :: t).dropWhile isWs = c1 :: t1 := by simp [hc, e1]
+              rw [this]
+              split
+              · next r heq => simp only [List.cons.injEq] at heq; rw [heq.1] at hc1; exact absurd hc1 (by decide)
+              · next r heq => simp only [List.cons.injEq] at heq; rw [heq.1] at hc1; exact absurd hc1 (by decide)
+              · rfl
+            unfold A; rw [attrsK_eq, hh1]
+            have hv : valueEnds [] = [] := by simp [valueEnds]
+            have hA0 : attrsK always [] = none := by rw [attrsK_eq]; simp [attrHead, closeK]
+            simp only [hv, List.findSome?_nil, hA0, hcl]
+          · intro r0 h
+            apply A_bound h
+            · intro s2 hs2
+              have : attrHead ((c :: t) ++ x) = some (x.dropWhile isAttrChar) := by
+                simp [attrHead, hc, e1', hc1, e2']
+              rw [this] at hs2; simp only [Option.some.injEq] at hs2; subst hs2
+              exact length_dropWhile_le _ _
+            · intro r hr
+              exfalso
+              unfold closeK at hr
+              have : ((c :: t) ++ x).dropWhile isWs = c1 :: (t1 ++ x) := by
+                simp [hc, e1']
+              rw [this] at hr
+              split at hr
+              · next r' heq => simp only [List.cons.injEq] at heq; rw [heq.1] at hc1; exact absurd hc1 (by decide)
+              · next r' heq => simp only [List.cons.injEq] at heq; rw [heq.1] at hc1; exact absurd hc1 (by decide)
+              · cases hr
+      · -- the smaller window is white space only
+        apply PA_vacuous
+        · have hh1 : attrHead (c :: t) = none := by simp [attrHead, hc, e1]
+          unfold A; rw [attrsK_eq, hh1]
+          unfold closeK
+          have : (c :: t).dropWhile isWs = [] := by simp [hc, e1]
+          rw [this]
+        · intro r0 h
+          have hd : ((c :: t) ++ x).dropWhile isWs = x.dropWhile isWs := by
+            simp [hc, e1']
+          apply A_bound h
+          · intro s2 hs2
+            simp only [List.cons_append, attrHead, hc, if_true, e1'] at hs2
+            split at hs2
+            · next c1 r' hd1 =>
+              split at hs2
+              · simp only [Option.some.injEq] at hs2; subst hs2
+                have h1 := length_dropWhile_le isWs x
+                have h2 := length_dropWhile_le isAttrChar r'
+                rw [hd1] at h1; simp at h1; omega
+              · cases hs2
+            · cases hs2
+          · intro r hr
+            have hh : closeK always ((c :: t) ++ x) = closeK always x := by unfold closeK; rw [hd]
+            rw [hh] at hr
+            exact closeK_lt hr
+
 /-! ## in terms of `tagMatch`-style extents (characters) -/
 
 /-- the extent of the match in characters -/
@@ -813,6 +1275,138 @@ theorem extent_shr_nonopen {w x : List Char} {n : Nat} (hopen : openTagK always 
     simp only [Option.map_some, Option.some.injEq, List.length_append] at h ⊢
     omega
 
+/-! ## the open tag and the whole `HTML_TAG_RE` -/
+
+/-- **the open tag, weak (E)**: a match under the smaller window ⇒ some match under the larger window -/
+theorem openTagK_ext_weak {w x r : List Char} (h : openTagK always w = some r) :
+    (openTagK always (w ++ x)).isSome = true := by
+  unfold openTagK at h
+  split at h
+  · next c t =>
+    split at h
+    · next hc =>
+      simp only [List.cons_append, openTagK, hc, if_true]
+      rcases dropWhile_append_cases isTagChar t x with ⟨c1, t1, e1, e1'⟩ | ⟨e1, e1'⟩
+      · rw [e1] at h; rw [e1']
+        exact (PA_all _ (c1 :: t1) x (Nat.le_refl _)).1 (by show (A (c1 :: t1)).isSome = true; unfold A; rw [h]; rfl)
+      · rw [e1] at h
+        have : attrsK always [] = none := by rw [attrsK_eq]; simp [attrHead, closeK]
+        rw [this] at h; cases h
+    · cases h
+  · cases h
+
+theorem openTagK_lt {s r : List Char} (h : openTagK always s = some r) : r.length + 2 < s.length := by
+  unfold openTagK at h
+  split at h
+  · next c t =>
+    split at h
+    · have h1 := A_lt h
+      have h2 := length_dropWhile_le isTagChar t
+      simp; omega
+    · cases h
+  · cases h
+
+/-- **the open tag, (S)**: a match under the larger window that ends inside the smaller one is the match
+    under the smaller one -/
+theorem openTagK_shr : Shr (openTagK always) := by
+  intro w x r0 h hx
+  have hlt := openTagK_lt h
+  simp only [List.length_append] at hlt
+  cases w with
+  | nil => simp at hlt; omega
+  | cons a w1 =>
+  cases w1 with
+  | nil =>
+    exfalso
+    unfold openTagK at h
+    simp only [List.cons_append, List.nil_append] at h
+    split at h
+    · next c t heq =>
+      simp only [List.cons.injEq] at heq
+      obtain ⟨_, rfl⟩ := heq
+      split at h
+      · have h1 := A_lt h
+        have h2 := length_dropWhile_le isTagChar t
+        simp at hx; omega
+      · cases h
+    · cases h
+  | cons b t =>
+    unfold openTagK at h ⊢
+    simp only [List.cons_append] at h
+    split at h
+    · next c t' heq =>
+      simp only [List.cons.injEq] at heq
+      obtain ⟨rfl, rfl, rfl⟩ := heq
+      split at h
+      · next hc =>
+        simp only [hc, if_true]
+        rcases dropWhile_append_cases isTagChar t x with ⟨c1, t1, e1, e1'⟩ | ⟨e1, e1'⟩
+        · rw [e1'] at h; rw [e1]
+          exact (PA_all _ (c1 :: t1) x (Nat.le_refl _)).2 r0 h hx
+        · rw [e1'] at h
+          have h1 := A_lt h
+          have h2 := length_dropWhile_le isTagChar x
+          omega
+      · cases h
+    · cases h
+
+/-- **`HTML_TAG_RE`, weak (E)**: the smaller window matches ⇒ the larger window matches (possibly longer:
+    `FlatL2` asks `o0 = none → o = none`, which is this) -/
+theorem tagRest_ext_weak {w x r : List Char} (h : tagRest w = some r) : (tagRest (w ++ x)).isSome = true := by
+  cases ho : openTagK always w with
+  | some r1 =>
+    have := openTagK_ext_weak (x := x) ho
+    unfold tagRest
+    cases ho' : openTagK always (w ++ x) with
+    | none => rw [ho'] at this; cases this
+    | some r' => rfl
+  | none => rw [tagRest_ext_nonopen ho h]; rfl
+
+/-- **`HTML_TAG_RE`, (S)**, every alternative: a match under the larger window that ends inside the smaller
+    window is the match under the smaller window -/
+theorem tagRest_shr : Shr tagRest := by
+  intro w x r0 h hx
+  cases ho : openTagK always (w ++ x) with
+  | some r1 =>
+    have e : r1 = r0 := by unfold tagRest at h; rw [ho] at h; simpa using h
+    subst e
+    obtain ⟨r, hr, hw⟩ := openTagK_shr w x _ ho hx
+    exact ⟨r, hr, by unfold tagRest; rw [hw]⟩
+  | none =>
+    obtain ⟨r, hr, hw, _⟩ := tagRest_shr_nonopen ho h hx
+    exact ⟨r, hr, hw⟩
+
+/-- **the `FlatL2` fact for the html rule**, on windows: no match under the larger window ⇒ none under the
+    smaller; a match under the larger window whose extent fits into the smaller window is the match there -/
+theorem extent_flatL2 (w x : List Char) :
+    (extent (w ++ x) = none → extent w = none) ∧
+    (∀ n, extent (w ++ x) = some n → n ≤ w.length → extent w = some n) := by
+  constructor
+  · intro h
+    unfold extent at h ⊢
+    cases hw : tagRest w with
+    | none => rfl
+    | some r =>
+      have := tagRest_ext_weak (x := x) hw
+      cases hx : tagRest (w ++ x) with
+      | none => rw [hx] at this; cases this
+      | some r' => rw [hx] at h; cases h
+  · intro n h hn
+    unfold extent at h ⊢
+    cases hr : tagRest (w ++ x) with
+    | none => rw [hr] at h; cases h
+    | some r0 =>
+      rw [hr] at h
+      simp only [Option.map_some, Option.some.injEq, List.length_append] at h
+      obtain ⟨mid, hm⟩ := tagRest_spec hr
+      have hl : r0.length ≤ w.length + x.length := by
+        have := congrArg List.length hm; simp at this; omega
+      obtain ⟨r, hr0, hw⟩ := tagRest_shr w x r0 hr (by omega)
+      rw [hw]
+      subst hr0
+      simp only [Option.map_some, Option.some.injEq, List.length_append] at h ⊢
+      omega
+
 /-! ## examples, and what is known about the open tag -/
 
 -- Ext / Shr on a comment: the later `-->` of the larger window is not reached
@@ -843,22 +1437,28 @@ example : extent "<a b='>' c>".toList = some 11 ∧ extent "<a b='>' c>d>".toLis
   The lazy `[\s\S]*?` of the comment / processing / CDATA alternatives and the `[^>]*` of the declaration never
   match longer under a larger window: they stop at the FIRST terminator (`findSub_ext`, `commentBody_ext`).
 
-  PROVED here: (E) and (S) for the close tag (`closeTagK_ext/_shr`), the comment (`commentRest_ext/_shr`), the
-  processing instruction and CDATA (`findSub_ext/_shr`), the declaration (`declRest_ext/_shr`), their union
-  (`specialRest_ext/_shr`) and the whole matcher on every window that does not start an open tag
-  (`tagRest_ext_nonopen`, `tagRest_shr_nonopen`, `extent_ext_nonopen`, `extent_shr_nonopen`).
+  PROVED here:
+   * (E) and (S) for the close tag (`closeTagK_ext/_shr`), the comment (`commentRest_ext/_shr`), the processing
+     instruction and CDATA (`findSub_ext/_shr`), the declaration (`declRest_ext/_shr`), their union
+     (`specialRest_ext/_shr`) and the whole matcher on every window that does not start an open tag
+     (`tagRest_ext_nonopen`, `tagRest_shr_nonopen`, `extent_ext_nonopen`, `extent_shr_nonopen`);
+   * for the OPEN TAG (`attrsK`, attribute backtracking): (S) in full (`openTagK_shr`) and the WEAK form of (E)
+         (E')  openTagK always w = some r  →  (openTagK always (w ++ x)).isSome
+     (`openTagK_ext_weak`: the larger window matches too — the same or, a priori, a longer tag), by a joint
+     induction over `attrsK` (`PA_all`): the candidate list of the value backtracking under the larger window is
+     the candidate list under the smaller one with `x` appended, in the same order, plus inserted candidates that
+     lie inside `x` (`Emb`, `valueEnds_emb`); (S) at a candidate uses (E') at the EARLIER candidates and vice versa;
+   * hence for the whole `HTML_TAG_RE`: `tagRest_shr` (= (S)), `tagRest_ext_weak` (= (E')), and the `FlatL2` fact
+     `extent_flatL2`: no match under the larger window ⇒ none under the smaller; a match under the larger window
+     whose extent fits into the smaller window is the match under the smaller window.  This is ALL `FlatL2` asks.
 
-  OPEN: (E) and (S) for the open tag (`openTagK always`, i.e. `attrsK`).  No counterexample: an exhaustive search
-  over all 1 948 717 strings `<a` + at most 6 characters of  a ␠ = " ' > / < U+00A0 ` \n  (every split of every string)
-  found none for (E) nor for (S).  Why it should hold, and what the proof needs: every greedy run of the pattern
-  (`\s*`, the tag / attribute name, the unquoted value) is over a class that excludes `>`, and a match ends with
-  `>`, so no run of a successful parse reaches the end of the smaller window (`dropWhile_append_cons` applies);
-  the only construct that can cross a `>` is a quoted value, and a quote that is not closed inside `w` makes the
-  attribute — hence, because `=` forces a value, the whole parse through that attribute — fail under `w`.  The
-  induction is over `attrsK` (well-founded on the length, `findSome?` over `valueEnds`): it needs the candidate
-  lists `valueEnds (s ++ x)` and `(valueEnds s).map (· ++ x)` to agree on every candidate that ends inside `s`
-  (`splits_append` for runs that stop inside `s`), and "an attribute head whose name run reaches the end of `w`
-  cannot lead to a match under `w`".
+  STILL OPEN (not needed for `FlatL2`): the STRONG (E) for the open tag — the match under the larger window has
+  the SAME extent.  It does not follow from the structural induction: a higher-priority candidate that fails
+  under `w` could a priori succeed under `w ++ x` with a match that extends past the cut ((S) says nothing then).
+  No counterexample: an exhaustive search over all 1 948 717 strings `<a` + at most 6 characters of
+  a ␠ = " ' > / < U+00A0 ` \\n  (every split of every string) found none.  Why it should hold: the only construct that
+  can run past the cut is a quoted value whose quote is not closed inside `w`, and because `=` forces a value,
+  every parse of `w` through that attribute fails.
 -/
 
 end MdIt.InlineH.Window
